@@ -14,7 +14,7 @@ import io
 import itertools
 
 PROP = 'C16'
-TARGETS = ['T16a', 'T16b', 'T16c', 'T16d', 'T16e', 'T16f', 'T15e']
+TARGETS = ['T16a', 'T16b', 'T16c', 'T16d', 'T16e', 'T16f', 'T16g', 'T15e', 'T15c']
 LEAN_MODULES = ['HdVerif.Props.C16']
 MODEL_MODULES = ['HdVerif.Model.SRReport']
 NAMESPACE = 'HdVerif.C16'
@@ -267,8 +267,17 @@ def _combos(r, method, values, exhaustive, pools=None):
 
 
 # ------------------------------------------------------------------ accessors
+def _norm(t):
+    """(value, scheme) with the legacy SNOMED-RT spelling normalised to SNOMED-CT"""
+    from pydicom.sr._snomed_dict import mapping
+    v, d = str(t[0]), str(t[1])
+    if d in ('SRT', 'SNM3', '99SDM') and v in mapping['SRT']:
+        return (mapping['SRT'][v], 'SCT')
+    return (v, d)
+
+
 def _code(c):
-    return (str(c.value), str(c.scheme_designator))
+    return _norm((c.value, c.scheme_designator))
 
 
 def _check_accessors(ctx, case, seq, g, method):
@@ -525,10 +534,30 @@ def _model_params(g):
     return out
 
 
+def _group_containers(rep):
+    """the measurement-group containers of a report in document order, found through pydicom attributes only (not through
+    the library's own `_find_measurement_groups`, whose answer is part of what is checked)"""
+    for it in rep[0].get('ContentSequence', []):
+        if str(it.ValueType) == 'CONTAINER' and _raw_code(it.ConceptNameCodeSequence) == '126010|DCM':
+            return [g for g in it.get('ContentSequence', [])
+                    if str(g.ValueType) == 'CONTAINER' and _raw_code(g.ConceptNameCodeSequence) == '125007|DCM']
+    return []
+
+
+def _raw_code(seq):
+    """'value|scheme' of a code sequence, the legacy SNOMED-RT spelling normalised to SNOMED-CT (the standard's equivalence,
+    pydicom's table; code equality itself is C17's subject)"""
+    from pydicom.sr._snomed_dict import mapping
+    v, d = str(seq[0].CodeValue), str(seq[0].CodingSchemeDesignator)
+    if d in ('SRT', 'SNM3', '99SDM') and v in mapping['SRT']:
+        return f'{mapping["SRT"][v]}|SCT'
+    return f'{v}|{d}'
+
+
 def _real_items(group_item):
     """top-level items of a real group container, read through pydicom attributes only"""
     def code(seq):
-        return f'{seq[0].CodeValue}|{seq[0].CodingSchemeDesignator}'
+        return _raw_code(seq)
 
     def ref(it):
         if 'ReferencedSOPSequence' in it:
@@ -564,7 +593,7 @@ def _check_layout(ctx, c, reqs, pending):
     """L1: the container the constructors built has the layout the model's `mkGroup` (and the generator's own
     prediction) give for the construction parameters"""
     from gen import srreports
-    containers = c['rep']._find_measurement_groups()
+    containers = _group_containers(c['rep'])
     case0 = {'stream': 'report', 'seed': ctx.seed, 'idx': c['idx']}
     if len(containers) != len(c['groups']):
         ctx.fail(case0, f'report holds {len(containers)} measurement groups, constructed with {len(c["groups"])}', site='report/groups')
@@ -737,6 +766,23 @@ def _perturb(r, cont, what, pool):
         cand = [i for i in refs_ if str(i.ValueType) == 'SCOORD' and 'ContentSequence' in i]
         if cand:
             del r.choice(cand).ContentSequence
+    elif what == 'legacy-names':
+        # concept names (and coded values) in the legacy SNOMED-RT spelling, as reports written before 2019 carry them:
+        # equivalent codes, nothing the queries answer may change
+        from pydicom.sr._snomed_dict import mapping
+
+        def respell(seq):
+            if str(seq[0].CodingSchemeDesignator) == 'SCT' and str(seq[0].CodeValue) in mapping['SCT']:
+                seq[0].CodeValue = mapping['SCT'][str(seq[0].CodeValue)]
+                seq[0].CodingSchemeDesignator = 'SRT'
+        for i in items:
+            respell(i.ConceptNameCodeSequence)
+            if 'ConceptCodeSequence' in i:
+                respell(i.ConceptCodeSequence)
+            for k2 in i.get('ContentSequence', []):
+                respell(k2.ConceptNameCodeSequence)
+                if 'ConceptCodeSequence' in k2:
+                    respell(k2.ConceptCodeSequence)
     elif what == 'reverse-regions':
         # same regions, other order: nothing the queries answer may change
         pos = [n for n, i in enumerate(items) if is_ref(i)]
@@ -756,7 +802,7 @@ def _third_party(ctx, reqs3, pending3, only_idx=None):
     groups returned (L0) — this is what exercises the error paths of the ROI reference search."""
     import highdicom as hd
     from gen import srreports
-    for idx in ([only_idx] if only_idx is not None else range(ctx.n(14, 160))):
+    for idx in ([only_idx] if only_idx is not None else range(ctx.n(12, 160))):
         r = ctx.rng('thirdparty', idx)
         res = _call(srreports.report, r, r.choice([1, 2, 3]), ('planar', 'volumetric'))
         if res[0] != 'ok':
@@ -765,14 +811,15 @@ def _third_party(ctx, reqs3, pending3, only_idx=None):
         rep, groups, pool = res[1]
         for k, g in enumerate(groups):
             g['tracking_uid'] = f'{pool["base"]}.9.{100 + k}'      # unique, so that answers identify groups
-        conts = rep._find_measurement_groups()
+        conts = _group_containers(rep)
         kinds = []
         for k, cont in enumerate(conts):
             for u in cont.ContentSequence:
                 if str(u.ValueType) == 'UIDREF' and u.ConceptNameCodeSequence[0].CodeValue == '112040':
                     u.UID = groups[k]['tracking_uid']
             what = r.choice(['none', 'shuffle', 'duplicate-ref', 'second-type', 'remove-ref', 'ref-relationship', 'strip',
-                             'bogus-graphic', 'no-graphic', 'no-sop', 'no-sop-source', 'no-children', 'reverse-regions'])
+                             'bogus-graphic', 'no-graphic', 'no-sop', 'no-sop-source', 'no-children', 'reverse-regions',
+                             'legacy-names'])
             _perturb(r, cont, what, pool)
             kinds.append(what)
         model_groups = [_real_items(c) for c in conts]
@@ -798,7 +845,9 @@ def _third_party(ctx, reqs3, pending3, only_idx=None):
                 pending3.append((case, ('ok', got) if ok else ('err', res[1])))
 
 
-MALFORMED = ['bogus-graphic', 'no-graphic', 'no-sop', 'no-sop-source', 'no-children', 'reverse-regions']
+MALFORMED = ['bogus-graphic', 'no-graphic', 'no-sop', 'no-sop-source', 'no-children', 'reverse-regions', 'legacy-names',
+             'swap-groups']
+METAMORPHIC = ('reverse-regions', 'legacy-names', 'swap-groups')     # no malformation: the answers must not change
 ROI_SHAPES = [s_ for s_ in SHAPES if s_[0] != 'image' and s_[1] != 'regions2d-1']
 
 
@@ -815,8 +864,14 @@ def _malformed(ctx, reqs3, pending3, only_idx=None):
     combos = [(sh, m, pos) for sh in ROI_SHAPES for m in MALFORMED for pos in (0, 1)]
     n = len(combos)
     # quick: every (shape, malformation), the position alternating; thorough: both positions
+    # (quick additionally takes one of the with / without template-identification variants of a shape per malformation)
+    nm_ = len(MALFORMED)
+
+    def in_quick(i):
+        sh, m, pos = i // (2 * nm_), i // 2 % nm_, i % 2
+        return (sh // 2 + m + ctx.seed) % 2 == sh % 2 and (sh + m + ctx.seed) % 2 == pos
     idxs = [only_idx] if only_idx is not None else \
-        [i for i in range(len(combos)) if ctx.tier != 'quick' or ctx.search_mode or (i // 2 + i // 12 + ctx.seed) % 2 == i % 2]
+        [i for i in range(len(combos)) if ctx.tier != 'quick' or ctx.search_mode or in_quick(i)]
     for idx in idxs:
         shape, what, pos = combos[idx]
         r = ctx.rng('malformed', idx)
@@ -838,31 +893,54 @@ def _malformed(ctx, reqs3, pending3, only_idx=None):
         rep = res[1]
         uids = [g['tracking_uid'] for g in groups]
         pools = _pools(groups, pool)
-        before = {}
-        if what == 'reverse-regions':
-            for method in ('planar', 'volumetric'):
-                for gt in pools['graphic_type']:
-                    f = {nm: (gt if nm == 'graphic_type' else None) for nm in FILTERS[method]}
-                    res = _call(getattr(rep, METHODS[method]), **_to_args(f))
-                    before[(method, gt)] = [_tracking(s_) for s_ in res[1]] if res[0] == 'ok' else ('err', res[1])
-        conts = rep._find_measurement_groups()
-        tpl = 'ContentTemplateSequence' in conts[pos]
-        tpl_seq = copy.deepcopy(conts[pos].ContentTemplateSequence) if tpl else None
-        _perturb(r, conts[pos], what, pool)
-        if tpl and 'ContentTemplateSequence' not in conts[pos]:
-            conts[pos].ContentTemplateSequence = tpl_seq        # the shape (with / without template id) is part of the case
-        model_groups = [_real_items(c) for c in conts]
-        for method in ('planar', 'volumetric', 'image'):
+        quick = ctx.tier == 'quick' and not ctx.search_mode
+        about_graphics = what in ('bogus-graphic', 'no-graphic', 'reverse-regions')
+
+        def filters_of(method):
+            # quick tier: the full sweep only of the filters that read what the malformation touches
             fl = [{nm: None for nm in FILTERS[method]}]
             for nm in FILTERS[method]:
                 if nm in ('finding_type', 'finding_site'):
-                    vals = pools[nm][:1]        # these filters read nothing a malformation touches
-                elif nm in ('graphic_type', 'reference_type'):
-                    vals = pools[nm]
+                    # these filters read nothing a malformation touches; a respelling touches their names
+                    vals = pools[nm] if what == 'legacy-names' else pools[nm][:1]
+                elif nm == 'graphic_type':
+                    vals = pools[nm] if about_graphics or not quick else [pools[nm][idx % 5], pools[nm][6 + idx % 5]]
+                elif nm == 'reference_type':
+                    vals = pools[nm] if not quick else [pools[nm][idx % 5], pools[nm][(idx + 2) % 5]]
+                elif quick and about_graphics:
+                    vals = pools[nm][:1]
                 else:
                     vals = pools[nm][:3] + pools[nm][-1:]
                 fl += [{m: (v if m == nm else None) for m in FILTERS[method]} for v in vals]
-            for f in fl:
+            return fl
+
+        def fkey(method, f):
+            return (method, tuple(sorted((k, str(v)) for k, v in f.items() if v is not None)))
+        before = {}
+        if what in METAMORPHIC:
+            # the answers of the untouched report (this also lets the report remember whatever it remembers between queries)
+            for method in ('planar', 'volumetric', 'image'):
+                for f in filters_of(method):
+                    res = _call(getattr(rep, METHODS[method]), **_to_args(f))
+                    before[fkey(method, f)] = [_tracking(s_) for s_ in res[1]] if res[0] == 'ok' else ('err', res[1])
+        conts = _group_containers(rep)
+        if what == 'swap-groups':
+            # the two groups exchanged IN PLACE in the report's own sequence: same number of groups, other document order
+            parent = [it for it in rep[0].ContentSequence if _raw_code(it.ConceptNameCodeSequence) == '126010|DCM'][0]
+            a_, b_ = [n for n, it in enumerate(parent.ContentSequence) if any(it is c_ for c_ in conts)]
+            parent.ContentSequence[a_], parent.ContentSequence[b_] = parent.ContentSequence[b_], parent.ContentSequence[a_]
+            groups = [groups[1], groups[0]]
+            uids = [uids[1], uids[0]]
+            conts = _group_containers(rep)
+        else:
+            tpl = 'ContentTemplateSequence' in conts[pos]
+            tpl_seq = copy.deepcopy(conts[pos].ContentTemplateSequence) if tpl else None
+            _perturb(r, conts[pos], what, pool)
+            if tpl and 'ContentTemplateSequence' not in conts[pos]:
+                conts[pos].ContentTemplateSequence = tpl_seq        # the shape (with / without template id) is part of the case
+        model_groups = [_real_items(c) for c in conts]
+        for method in ('planar', 'volumetric', 'image'):
+            for f in filters_of(method):
                 res = _call(getattr(rep, METHODS[method]), **_to_args(f))
                 case = dict(case0, method=method, filters={k: v for k, v in f.items() if v is not None})
                 ok = res[0] == 'ok'
@@ -874,19 +952,210 @@ def _malformed(ctx, reqs3, pending3, only_idx=None):
                     if -1 in got or got != sorted(set(got)):
                         ctx.fail(case, {'what': 'answer is not a duplicate-free list of the report\'s groups in document order',
                                         'got': got}, site=f'{method}/third-party-order')
-                if what == 'reverse-regions' and f.get('graphic_type') is not None and (method, f['graphic_type']) in before:
+                if what in METAMORPHIC:
                     now = [_tracking(s_) for s_ in res[1]] if ok else ('err', res[1])
-                    if now != before[(method, f['graphic_type'])]:
-                        ctx.fail(case, {'what': 'the answer to a graphic-type query changed when the regions of a volumetric ROI were '
-                                                'stored in reverse order', 'before': before[(method, f['graphic_type'])], 'after': now},
-                                 site=f'{method}/region-order')
+                    was = before[fkey(method, f)]
+                    if what == 'swap-groups' and isinstance(was, list):
+                        was = sorted(was, key=uids.index)           # same groups, in the NEW document order
+                    if now != was:
+                        ctx.fail(case, {'what': {'reverse-regions': 'the answer changed when the regions of a volumetric ROI were stored in '
+                                                                    'reverse order',
+                                                 'legacy-names': 'the answer changed when concept names / coded values were respelled '
+                                                                 'with the equivalent legacy SNOMED-RT codes',
+                                                 'swap-groups': 'after two groups were exchanged in place the answer is not the same groups '
+                                                                'in the new document order'}[what],
+                                        'before': before[fkey(method, f)], 'after': now}, site=f'{method}/metamorphic-{what}')
+                if what == 'legacy-names' and ok and not case['filters']:
+                    # a returned group still reports what it was constructed with (its accessors search by name, too)
+                    for s_ in res[1]:
+                        _check_accessors(ctx, dict(case, what='accessors after respelling'), s_, groups[uids.index(_tracking(s_))], method)
                 reqs3.append(('queryItems', {'method': method, 'groups': model_groups,
                                              'filters': {k: (list(v) if isinstance(v, tuple) else v) for k, v in f.items()}}))
                 pending3.append((case, ('ok', got) if ok else ('err', res[1])))
+        if what == 'legacy-names':
+            # the same report written into a document and parsed back: still the answers of the untouched report
+            rd = _call(_as_document, {'groups': groups, 'pool': pool, 'rep': rep})
+            if rd[0] != 'ok' or type(rd[1].content).__name__ != 'MeasurementReport':
+                ctx.fail(case0, f'report with legacy concept names cannot be written and parsed back as a MeasurementReport: '
+                                f'{rd[2] if rd[0] != "ok" else type(rd[1].content).__name__}', site='srread/legacy-names')
+            else:
+                for method in ('planar', 'volumetric', 'image'):
+                    for f in filters_of(method):
+                        res = _call(getattr(rd[1].content, METHODS[method]), **_to_args(f))
+                        now = [_tracking(s_) for s_ in res[1]] if res[0] == 'ok' else ('err', res[1])
+                        ctx.case(path='malformed-reread', method=method, malformation=what, outcome='ok' if res[0] == 'ok' else res[1])
+                        if now != before[fkey(method, f)]:
+                            ctx.fail(dict(case0, method=method, filters={k: v for k, v in f.items() if v is not None}, path='reread'),
+                                     {'what': 'the answer of the re-read report with legacy SNOMED-RT concept names differs from the answer '
+                                              'of the report as constructed', 'before': before[fkey(method, f)], 'after': now},
+                                     site=f'{method}/metamorphic-legacy-names-reread')
     if only_idx is None:
         ctx.exhaustive.append(f'all {len(ROI_SHAPES) * len(MALFORMED)} (ROI group shape x malformation) combinations'
-                              + (' x both positions' if len(idxs) == len(combos) else ', position alternating')
+                              + (' x both positions' if len(idxs) == len(combos) else
+                                 ' (quick: template-identification variant and position alternating)')
                               + ', every graphic type / reference type and 4 values of every UID filter')
+
+
+FIXTURES = ['sr_document.dcm', 'sr_document_with_multiple_groups.dcm']
+
+
+def _stored(cont, name):
+    """normalised (value, scheme) of the CODE items of a container stored under the (normalised) concept name"""
+    return [_norm((it.ConceptCodeSequence[0].CodeValue, it.ConceptCodeSequence[0].CodingSchemeDesignator))
+            for it in cont.get('ContentSequence', [])
+            if str(it.ValueType) == 'CODE' and _raw_code(it.ConceptNameCodeSequence) == name]
+
+
+def _stored_uid(cont):
+    for it in cont.get('ContentSequence', []):
+        if str(it.ValueType) == 'UIDREF' and _raw_code(it.ConceptNameCodeSequence) == '112040|DCM':
+            return str(it.UID)
+    return None
+
+
+def _fixtures(ctx, reqs3, pending3):
+    """The measurement reports shipped with the repository (one of them written with the legacy SNOMED-RT concept names):
+    all three queries without filter and with every finding type / finding site / tracking UID stored in the file (and one
+    that is not), against the model over the items read through pydicom (L0) and against a linear scan: a group stored
+    with a finding site is found by the filter on that site and reports it."""
+    import os
+    import hd_env
+    import highdicom as hd
+    from pydicom.sr._snomed_dict import mapping
+    for name in FIXTURES:
+        path = os.path.join(hd_env.HD_REPO, 'data', 'test_files', name)
+        res = _call(lambda: hd.sr.srread(path).content)
+        case0 = {'stream': 'fixture', 'seed': ctx.seed, 'file': name}
+        if res[0] != 'ok' or type(res[1]).__name__ != 'MeasurementReport':
+            ctx.fail(case0, f'shipped report not read as a MeasurementReport: {res[2] if res[0] != "ok" else type(res[1]).__name__}',
+                     site='fixture/read')
+            continue
+        rep = res[1]
+        conts = _group_containers(rep)
+        uids = [_stored_uid(c) for c in conts]
+        model_groups = [_real_items(c) for c in conts]
+        sites = [_stored(c, '363698007|SCT') for c in conts]
+        types = [_stored(c, '121071|DCM') for c in conts]
+        pool_f = {'finding_site': sorted({x for l in sites for x in l}) + [('S9', '99VERIF')],
+                  'finding_type': sorted({x for l in types for x in l}) + [('F9', '99VERIF')],
+                  'tracking_uid': [u for u in uids if u] + ['1.2.3.4.5']}
+        found_by_site = {x: set() for x in pool_f['finding_site']}
+        for method in ('planar', 'volumetric', 'image'):
+            fl = [{nm: None for nm in FILTERS[method]}]
+            for nm, vals in pool_f.items():
+                for v in vals:
+                    fl.append({m: (v if m == nm else None) for m in FILTERS[method]})
+                    if nm != 'tracking_uid' and v[1] == 'SCT' and v[0] in mapping['SCT']:
+                        # the same concept asked for in the other spelling
+                        fl.append({m: ((mapping['SCT'][v[0]], 'SRT') if m == nm else None) for m in FILTERS[method]})
+            for f in fl:
+                res = _call(getattr(rep, METHODS[method]), **_to_args(f))
+                case = dict(case0, method=method, filters={k: v for k, v in f.items() if v is not None})
+                ok = res[0] == 'ok'
+                ctx.case(path='fixture', method=method, outcome=('ok' if ok else res[2].split(':')[0]),
+                         nontrivial_key=('fixture', name, method, tuple(sorted(case['filters'].items()))))
+                got = None
+                if ok:
+                    got = [uids.index(_tracking(s_)) if _tracking(s_) in uids else -1 for s_ in res[1]]
+                    if -1 in got or got != sorted(set(got)):
+                        ctx.fail(case, {'what': 'answer is not a duplicate-free list of the report\'s groups in document order', 'got': got},
+                                 site=f'{method}/fixture-order')
+                    for k, s_ in zip(got, res[1]):
+                        if k >= 0:
+                            have = [_code(x.value) for x in s_.finding_sites]
+                            if have != sites[k]:
+                                ctx.fail(case, {'what': 'returned group does not report the finding sites stored in its container',
+                                                'got': have, 'stored': sites[k]}, site=f'{method}/fixture-finding-sites')
+                            if f.get('finding_site') is not None:
+                                found_by_site[_norm(f['finding_site'])].add(k)
+                else:
+                    ctx.fail(case, f'query on a shipped report refused: {res[2]}', site=f'{method}/fixture-accept')
+                reqs3.append(('queryItems', {'method': method, 'groups': model_groups,
+                                             'filters': {k: (list(_norm(v)) if isinstance(v, tuple) else v) for k, v in f.items()}}))
+                pending3.append((case, ('ok', got) if ok else ('err', res[1])))
+        for x, ks in found_by_site.items():
+            want = {k for k, l in enumerate(sites) if x in l}
+            if ks != want:
+                ctx.fail(dict(case0, finding_site=list(x)),
+                         {'what': 'the groups found by a finding-site filter (over the three queries) are not the groups stored with that site',
+                          'got': sorted(ks), 'stored_with_site': sorted(want)}, site='fixture/finding-site')
+
+
+HISTORY_EDITS = ['replace', 'swap', 'delete-append', 'delete', 'append', 'none']
+
+
+def _histories(ctx, reqs3, pending3, only_idx=None):
+    """Several calls on ONE report object: query, edit the report in place (a group replaced by a group of another report,
+    two groups exchanged, one deleted and one appended, one deleted, one appended), query again - twice over.  Every answer
+    is compared with the model over the report AS IT IS NOW (items read through pydicom, L0), must name groups of the
+    current report in document order, and a query must leave nothing behind on the report object (`vars(report)` keys and
+    the identity of its list before / after)."""
+    import highdicom as hd
+    from gen import srreports
+    from pydicom.sr.codedict import codes
+    n = ctx.n(12, 150)
+    for idx in ([only_idx] if only_idx is not None else range(n)):
+        r = ctx.rng('history', idx)
+        pool = srreports.instance_pool(r)
+        oc = hd.sr.ObservationContext(observer_person_context=hd.sr.ObserverContext(
+            observer_type=codes.DCM.Person, observer_identifying_attributes=hd.sr.PersonObserverIdentifyingAttributes(name='Doe^Jane')))
+
+        def build(first):
+            gs = [_shape_group(r, pool, first + k, r.choice(SHAPES)) for k in range(3)]
+            return gs, hd.sr.MeasurementReport(observation_context=oc, procedure_reported=codes.LN.CTUnspecifiedBodyRegion,
+                                               imaging_measurements=[srreports.build_group(r, g) for g in gs])
+        res = _call(lambda: (build(1), build(11)))
+        case0 = {'stream': 'history', 'seed': ctx.seed, 'idx': idx}
+        if res[0] != 'ok':
+            ctx.fail(case0, f'reports of admissible groups not constructed: {res[2]}', site='report/construct')
+            continue
+        (_, rep), (_, donor) = res[1]
+        parent = [it for it in rep[0].ContentSequence if _raw_code(it.ConceptNameCodeSequence) == '126010|DCM'][0]
+        spare = list(_group_containers(donor))
+        edits = [HISTORY_EDITS[(idx + k) % len(HISTORY_EDITS)] if k else 'none' for k in range(3)]
+        for step, edit in enumerate(edits):
+            seq = parent.ContentSequence
+            pos = [n_ for n_, it in enumerate(seq) if _raw_code(it.ConceptNameCodeSequence) == '125007|DCM']
+            if edit == 'replace' and pos and spare:
+                seq[r.choice(pos)] = spare.pop()
+            elif edit == 'swap' and len(pos) >= 2:
+                a_, b_ = r.sample(pos, 2)
+                seq[a_], seq[b_] = seq[b_], seq[a_]
+            elif edit == 'delete-append' and pos and spare:
+                del seq[r.choice(pos)]
+                seq.append(spare.pop())
+            elif edit == 'delete' and len(pos) >= 2:
+                del seq[r.choice(pos)]
+            elif edit == 'append' and spare:
+                seq.append(spare.pop())
+            conts = _group_containers(rep)
+            uids = [_stored_uid(c) for c in conts]
+            model_groups = [_real_items(c) for c in conts]
+            for method in ('planar', 'volumetric', 'image'):
+                fl = [{nm: None for nm in FILTERS[method]}]
+                if uids:
+                    fl.append({nm: (r.choice(uids) if nm == 'tracking_uid' else None) for nm in FILTERS[method]})
+                for f in fl:
+                    keys0, list0 = set(vars(rep)), id(getattr(rep, '_list', None))
+                    res = _call(getattr(rep, METHODS[method]), **_to_args(f))
+                    case = dict(case0, step=step, edits=edits[:step + 1], method=method, filters={k: v for k, v in f.items() if v is not None})
+                    ok = res[0] == 'ok'
+                    ctx.case(path='history', method=method, edit=edit, step=step, outcome=('ok' if ok else res[2].split(':')[0]),
+                             nontrivial_key=('history', tuple(edits[:step + 1]), method, bool(case['filters'])))
+                    if set(vars(rep)) != keys0 or id(getattr(rep, '_list', None)) != list0:
+                        ctx.fail(case, {'what': 'a query left state behind on the report object',
+                                        'new_attributes': sorted(set(vars(rep)) - keys0), 'lost': sorted(keys0 - set(vars(rep)))},
+                                 site=f'{method}/query-leaves-state')
+                    got = None
+                    if ok:
+                        got = [uids.index(_tracking(s_)) if _tracking(s_) in uids else -1 for s_ in res[1]]
+                        if -1 in got or got != sorted(set(got)):
+                            ctx.fail(case, {'what': 'after an in-place edit the answer is not a duplicate-free list of the groups the report '
+                                                    'holds NOW, in document order', 'got': [_tracking(s_) for s_ in res[1]], 'report_holds': uids},
+                                     site=f'{method}/history-order')
+                    reqs3.append(('queryItems', {'method': method, 'groups': model_groups,
+                                                 'filters': {k: (list(v) if isinstance(v, tuple) else v) for k, v in f.items()}}))
+                    pending3.append((case, ('ok', got) if ok else ('err', res[1])))
 
 
 def _helpers(ctx, reqs2, pending2):
@@ -929,19 +1198,37 @@ def run(ctx):
             _check_report(ctx, _report_case(ctx, case['idx']), reqs, pending)
     reqs2, pending2 = [], []
     spec_reqs, spec_pending = [], []
+    import time
+    t_ = [time.time()]
+
+    def lap(name):
+        ctx.note(f'time {name}: {time.time() - t_[0]:.1f}s')
+        if os.environ.get('HDV_TIMING'):
+            print(f'time {name}: {time.time() - t_[0]:.1f}s', flush=True)
+        t_[0] = time.time()
     _helpers(ctx, reqs2, pending2)
-    for idx in range(ctx.n(20, 250)):
+    lap('argument checks')
+    for idx in range(ctx.n(18, 250)):
         res = _call(_report_case, ctx, idx)
         if res[0] != 'ok':
             ctx.fail({'stream': 'report', 'seed': ctx.seed, 'idx': idx}, f'a valid report could not be constructed: {res[2]}',
                      site='report/construct')
             continue
         _check_report(ctx, res[1], reqs, pending, spec_reqs=spec_reqs, spec_pending=spec_pending)
+    lap('reports')
     _shapes(ctx, reqs, pending, spec_reqs, spec_pending)
+    lap('shapes')
     reqs3, pending3 = [], []
     _third_party(ctx, reqs3, pending3)
+    lap('third party')
     _malformed(ctx, reqs3, pending3)
+    lap('malformed')
+    _fixtures(ctx, reqs3, pending3)
+    lap('fixtures')
+    _histories(ctx, reqs3, pending3)
+    lap('histories')
     answers = ctx.model(reqs + reqs2 + spec_reqs + reqs3)
+    lap('model')
     if answers is None:
         return
     for (case, impl), ans in zip(pending3, answers[len(reqs) + len(reqs2) + len(spec_reqs):]):
@@ -993,6 +1280,10 @@ def replay(ctx, case):
         _third_party(sub, [], [], only_idx=case['idx'])
     elif case.get('stream') == 'malformed':
         _malformed(sub, [], [], only_idx=case['idx'])
+    elif case.get('stream') == 'history':
+        _histories(sub, [], [], only_idx=case['idx'])
+    elif case.get('stream') == 'fixture':
+        _fixtures(sub, [], [])
     elif case.get('stream') == 'shapes':
         _shapes(sub, [], [], [], [], only_idx=case['idx'])
     fl = [f for f in sub.failures if all(f['case'].get(k) == case.get(k) for k in ('method', 'path') if k in case)]
